@@ -84,9 +84,6 @@ func (t *tracedRenderer) doHint(c Call, hint *arcHint) {
 	}
 }
 
-
-
-
 // ---- lattice configurations -----------------------------------------------------------------
 
 type rendCfg struct {
